@@ -285,6 +285,27 @@ def _fit_rules(ctx, A, cls, m, fi, r, params, cfg, is_subject):
                     f"{cname}.fit reads '{a}' before any write in this fit: only an earlier fit can have set it, so the "
                     "result of fit depends on the call history (e.g. records accumulate across fits)",
                     f"read of {a} before write in fit")
+    # R19.8 state that __init__ derives from a constructor parameter and fit reads: set_params / clone().set_params() change the
+    # parameter but not the derived attribute, so fit is no longer determined by get_params()
+    init = ctx.prog.lookup_method(cls, "__init__")
+    derived = {}
+    if init is not None and init.cls in ctx.prog.classes:
+        ri = A.run(init.fq, cls_ctx=cls)
+        ptermset = {t for nm, t in ri.params.items() if t is not ri.self_term}
+        for e in ri.events:
+            if e.kind == "store" and e.data.get("tkind") == "attr" and e.data.get("obj") is ri.self_term and e.data["attr"] not in params:
+                deps = [nm for nm, t in ri.params.items() if t in ptermset and contains(e.data["value"], lambda s_, t=t: s_ is t)]
+                if deps:
+                    derived[e.data["attr"]] = deps
+    seen_d = set()
+    for e in r.events:
+        if e.kind == "read" and e.data["obj"] is r.self_term and e.data["attr"] in derived and e.data["attr"] not in seen_d:
+            a = e.data["attr"]
+            seen_d.add(a)
+            _note_or_ob(ctx, is_subject, "R19.8", e.func, e.node, False,
+                        f"{cname}.{m} reads self.{a}, which __init__ derives from the constructor parameter(s) {', '.join(derived[a])}: after "
+                        f"set_params({derived[a][0]}=...) (or clone + set_params, as in a parameter search) the attribute keeps its old "
+                        "value, so two estimators with equal get_params() fit differently", f"stale derived attribute {a} read in {m}")
     # R19.3 in-place mutation of a container that this fit did not create
     n_mut = 0
     seen_m = set()
